@@ -34,3 +34,14 @@ Section WithCtx.
     do tiles <- read_dir_io (depth_fuel_of max_dir_depth) (h_icomp h) (h_root_off h) (h_root_len h) (h_leaf_off h) r [];
     Ok (h, meta, tiles).
 End WithCtx.
+
+(** a tile lookup over the same interface: an in-memory tile needs no I/O; a reader-backed tile is one exact fetch
+    of its byte range (seek + read_exact: fewer bytes than its length is an error) *)
+Definition get_tile_io (fetch : fetcher) (s : tm) (id : N) : outcome (option bytes) :=
+  match aget id (tile_by_id s) with
+  | None => Ok None
+  | Some (THash h) => Ok (aget h (data_by_hash s))
+  | Some (TOffLen off len) =>
+    do b <- fetch off len;
+    if nlen b =? len then Ok (Some b) else Err EEof
+  end.
